@@ -150,6 +150,46 @@ pub mod sync {
     pub mod atomic {
         pub use ::std::sync::atomic::Ordering;
 
+        /// `std::sync::atomic::AtomicPtr` with a `const fn new`: the loom object is created at the first
+        /// access (inside the execution that uses it). Objects must not outlive one loom execution.
+        pub struct AtomicPtr<T> {
+            init: *mut T,
+            inner: ::std::sync::OnceLock<loom::sync::atomic::AtomicPtr<T>>,
+        }
+
+        unsafe impl<T> Send for AtomicPtr<T> {}
+        unsafe impl<T> Sync for AtomicPtr<T> {}
+
+        impl<T> AtomicPtr<T> {
+            pub const fn new(p: *mut T) -> Self {
+                Self { init: p, inner: ::std::sync::OnceLock::new() }
+            }
+
+            fn inner(&self) -> &loom::sync::atomic::AtomicPtr<T> {
+                self.inner.get_or_init(|| loom::sync::atomic::AtomicPtr::new(self.init))
+            }
+
+            #[track_caller]
+            pub fn load(&self, order: Ordering) -> *mut T {
+                self.inner().load(order)
+            }
+
+            #[track_caller]
+            pub fn store(&self, p: *mut T, order: Ordering) {
+                self.inner().store(p, order)
+            }
+
+            #[track_caller]
+            pub fn compare_exchange_weak(&self, current: *mut T, new: *mut T, success: Ordering, failure: Ordering) -> Result<*mut T, *mut T> {
+                self.inner().compare_exchange_weak(current, new, success, failure)
+            }
+
+            #[track_caller]
+            pub fn compare_exchange(&self, current: *mut T, new: *mut T, success: Ordering, failure: Ordering) -> Result<*mut T, *mut T> {
+                self.inner().compare_exchange(current, new, success, failure)
+            }
+        }
+
         use crate::live;
 
         /// loom `AtomicUsize` carrying a liveness id: any access after the
